@@ -2585,6 +2585,12 @@ pub fn gen_c18(rng: &mut Rng, tier: &str, out: &mut Out) {
         }
         out.d(format!("UUID {}", hx(&b)));
     }
+    // inputs that start with the cache format's magic (or a written cache itself) are byte strings like
+    // any other
+    for b in [&b"PRGC"[..], b"PRGCore.internal.Engine -> a.a:\n", b"PRGC\x01\x00\x00\x00", b"CGRP", b"PRG"] {
+        out.d(format!("UUID {}", hx(b)));
+    }
+    out.d(format!("UUID {}", hx(&crate::proto::cur::write_cache_safe(b"o.A -> a:\n    1:2:void m() -> b\n"))));
     // every byte counts: trailing NUL padding up to a multiple of 8, one trailing NUL, a character
     // torn at the end of the file
     for base in [&b"a.B -> c:\n"[..], b"a.B -> c:\n    int f -> x\n", b"a.B -> c:\r\n", b"a.B -> c:\n    void go() -> y", b"# emoji: ", b""] {
